@@ -247,7 +247,7 @@ class CallMixin:
             return self.call_repo(fn.ref, fn.self_, args, kwargs, st, line)
         if k == "class":
             return self.call_class(fn.ref, args, kwargs, st, line)
-        if k in ("arrmethod", "dictmethod", "listmethod", "strmethod", "opaque"):
+        if k in ("arrmethod", "dictmethod", "listmethod", "strmethod", "opaque", "seqmethod"):
             m = self.models.get(f"{k}.{fn.ref}")
             if m is None:
                 raise OutOfSubset(f"line {line}: {k} .{fn.ref}()")
